@@ -14,8 +14,8 @@ REQUIRED = ["every representation gives a valid bracket of the same distance", "
             "collection: lower bounds equal the pair calls'", "fewer than 2 graphs rejected",
             "disconnected: warning, no exception, bracket for a largest component"]
 RULE = ("one abstract graph (C05 families, n<=8 so that the exact oracle applies) in many concrete forms: nested lists, dense "
-        "int/bool/float(weighted) arrays, CSR/CSC/COO/LIL, upper-triangular / lower-triangular / symmetric fill, sparse forms with "
-        "explicitly stored zeros, random relabelling; collections of 2-6 mixed-format graphs; a few 100-300 vertex graphs (sizes and diameters across the int8/int16 boundaries) against the one-point graph, where the exact distance is diam/2; disconnected unions (2-4 components, "
+        "int/bool/float(weighted) arrays, Fortran-ordered and strided views, CSR/CSC/COO/LIL/DOK matrices and csr_array, upper-triangular / lower-triangular / symmetric / one-entry-per-edge-in-random-orientation fill, sparse forms with "
+        "explicitly stored zeros, random relabelling; collections of 2-6 mixed-format graphs given as list / tuple / object array / one stacked 3-D array; a few 100-300 vertex graphs (sizes and diameters across the int8/int16 boundaries) against the one-point graph, where the exact distance is diam/2; disconnected unions (2-4 components, "
         "isolated vertices, ties for the largest component); RNG seeded per call. non-trivial = non-isomorphic pair with >=3 distinct "
         "forms exercised, or a disconnected input; distinct = digest of the abstract graphs")
 ASSUMPTIONS = ["exact distance from the C05 backtracking oracle on my own BFS metric",
@@ -23,43 +23,13 @@ ASSUMPTIONS = ["exact distance from the C05 backtracking oracle on my own BFS me
                "disconnected input: bracketing the distance for any one of the components tied for largest is accepted"]
 TECHNIQUE = "runtime monitoring: metamorphic monitor over representations of one graph + exact oracle; warning/exception sensors for the degraded path"
 
-FORMS = ["list", "int", "bool", "float", "csr", "csc", "coo", "lil", "csr+zeros", "coo+zeros"]
+from ..graphforms import FORMS, FILLS, represent      # noqa: E402
 
 
 def setup(ctx):
     global gh
     import importlib
     gh = importlib.import_module("persim.gromov_hausdorff").gromov_hausdorff
-
-
-def represent(rng, A, form, fill):
-    """A: symmetric 0/1 int array. fill in {'upper','lower','sym'}"""
-    M = A.copy()
-    if fill == "upper":
-        M = np.triu(M, 1)
-    elif fill == "lower":
-        M = np.tril(M, -1)
-    if form == "list":
-        return M.tolist()
-    if form == "int":
-        return M.astype(rng.choice([np.int8, np.int32, np.int64, np.uint8]))
-    if form == "bool":
-        return M.astype(bool)
-    if form == "float":
-        return M * rng.uniform(0.1, 5.0, M.shape)      # edge "weights": still an unweighted graph
-    if form in ("csr", "csc", "coo", "lil"):
-        return getattr(sps, form + "_matrix")(M)
-    # explicitly stored zeros at some non-edges
-    r, c = np.nonzero(M)
-    n = len(M)
-    zr, zc = [], []
-    for _ in range(int(rng.integers(1, 4))):
-        i, j = int(rng.integers(0, n)), int(rng.integers(0, n))
-        if i != j and A[i, j] == 0:
-            zr.append(i); zc.append(j)
-    data = np.concatenate([np.ones(len(r)), np.zeros(len(zr))])
-    S = sps.coo_matrix((data, (np.concatenate([r, zr]).astype(int), np.concatenate([c, zc]).astype(int))), shape=(n, n))
-    return S.tocsr() if form == "csr+zeros" else S
 
 
 def call(ctx, *args, seed=0):
@@ -100,7 +70,7 @@ def large_case(ctx, k, rng):
     A, _ = OM.relabel(rng, A)
     D = OM.bfs_metric(A)
     diam = max(map(max, D))
-    fA = str(rng.choice(FORMS)); fill = str(rng.choice(["upper", "lower", "sym"]))
+    fA = str(rng.choice(FORMS)); fill = str(rng.choice(FILLS))
     point = [[[0]], np.zeros((1, 1), dtype=int), sps.csr_matrix((1, 1))][int(rng.integers(0, 3))]
     ctx.begin(k, "large/" + fam, {"family": fam, "n": n, "diameter": diam, "form": [fA, fill]})
     ctx.seen("large sizes", n)
@@ -143,7 +113,7 @@ def forms_case(ctx, k, rng):
     allok = True
     for _ in range(int(rng.integers(3, 7))):
         fA, fB = str(rng.choice(FORMS)), str(rng.choice(FORMS))
-        fillA, fillB = str(rng.choice(["upper", "lower", "sym"])), str(rng.choice(["upper", "lower", "sym"]))
+        fillA, fillB = str(rng.choice(FILLS)), str(rng.choice(FILLS))
         used.append((fA, fillA, fB, fillB))
         ctx.seen("forms", fA + "/" + fillA)
         try:
@@ -176,12 +146,36 @@ def C05sig(D):
 
 def collection_case(ctx, k, rng):
     m = int(rng.integers(2, 7))
-    graphs = [OM.relabel(rng, OM.random_connected(rng, 7)[0])[0] for _ in range(m)]
-    ctx.begin(k, "collection", {"graphs": graphs})
-    reps = [represent(rng, G, str(rng.choice(FORMS)), str(rng.choice(["upper", "lower", "sym"]))) for G in graphs]
+    container = str(rng.choice(["list", "list", "tuple", "stacked", "object-array", "generator-list"]))
+    if container == "stacked":
+        # a batch of same-sized dense matrices as ONE 3-D array (np.stack of the graphs): indexing it creates temporaries
+        nn = int(rng.integers(3, 8))
+        graphs = []
+        while len(graphs) < m:
+            G = OM.relabel(rng, OM.random_connected(rng, 7)[0])[0]
+            if len(G) == nn:
+                graphs.append(G)
+            elif len(graphs) == 0 and rng.random() < 0.2:
+                nn = len(G)
+        fill = str(rng.choice(FILLS)); dt = rng.choice([np.int64, np.int8, float, bool])
+        reps = [np.asarray(represent(rng, G, "int", fill)).astype(dt) for G in graphs]
+        coll = np.stack(reps)
+    else:
+        graphs = [OM.relabel(rng, OM.random_connected(rng, 7)[0])[0] for _ in range(m)]
+        reps = [represent(rng, G, str(rng.choice(FORMS)), str(rng.choice(FILLS))) for G in graphs]
+        if container == "tuple":
+            coll = tuple(reps)
+        elif container == "object-array":
+            coll = np.empty(m, dtype=object)
+            for i, r in enumerate(reps):
+                coll[i] = r
+        else:
+            coll = list(reps)
+    ctx.begin(k, "collection/" + container, {"graphs": graphs})
+    ctx.seen("collection containers", container)
     seed = int(rng.integers(0, 2 ** 31))
     try:
-        (lbs, ubs), _ = call(ctx, reps, seed=seed)
+        (lbs, ubs), _ = call(ctx, coll, seed=seed)
     except Exception as e:
         ctx.exception("collection call returns", e)
         return
@@ -238,7 +232,7 @@ def disconnected_case(ctx, k, rng):
     cA, ncA = candidates(A)
     cB, ncB = candidates(B)
     fA, fB = str(rng.choice(FORMS)), str(rng.choice(FORMS))
-    ra, rb = represent(rng, A, fA, str(rng.choice(["upper", "sym"]))), represent(rng, B, fB, str(rng.choice(["upper", "sym"])))
+    ra, rb = represent(rng, A, fA, str(rng.choice(["upper", "sym", "mixed"]))), represent(rng, B, fB, str(rng.choice(["upper", "sym", "mixed"])))
     try:
         (lb, ub), msgs = call(ctx, *((rb, ra) if swap else (ra, rb)), seed=int(rng.integers(0, 2 ** 31)))
     except Exception as e:
